@@ -62,6 +62,25 @@ impl<L: Language> Analysis<L> for SizeDepth {
     }
 }
 
+/// Analysis: the set of leaf operators below a class; merge = set union.  Unlike the min-lattices every e-node
+/// contributes to the datum, and an e-node that refers to its own class re-makes itself when the class improves.
+#[derive(Default)]
+pub struct Leaves;
+
+impl<L: Language> Analysis<L> for Leaves {
+    type Data = std::collections::BTreeSet<String>;
+    fn make(eg: &EGraph<L, Self>, enode: &L) -> Self::Data {
+        let ch = enode.applied_id_occurrences();
+        if ch.is_empty() {
+            return [op_of(enode)].into_iter().collect();
+        }
+        let mut s = std::collections::BTreeSet::new();
+        for x in ch { s.extend(eg.analysis_data(x.id).iter().cloned()); }
+        s
+    }
+    fn merge(mut l: Self::Data, r: Self::Data) -> Self::Data { l.extend(r); l }
+}
+
 /// rename every slot occurrence of `re` that is a key of `m`
 pub fn rename_recexpr<L: Language>(re: &RecExpr<L>, m: &SlotMap) -> RecExpr<L> {
     let mut node = re.node.clone();
